@@ -87,3 +87,8 @@ fn k_stamp_3_order() {
     }
     vcover!();
 }
+
+/// The stamp (iteration, cancellation epoch).
+pub(crate) fn stamp(iteration: u8, cancellation_count: u8) -> IterationStamp {
+    IterationStamp::new(iteration, cancellation_count)
+}
